@@ -25,11 +25,15 @@ MINIMISE_S = 25
 WORLD_CAP_S = 120
 SELFCHECK_N = {'quick': 6, 'thorough': 20}
 REAL_COMPONENTS = ['parser objects of the three shipped dialects (long-lived)', 'MibCompiler with its internal SymtableCodeGen (long-lived)', 'JsonCodeGen / PySnmpCodeGen (long-lived)',
+                   'fs histories: FileReader, ZipReader, AnyFileSearcher, PyFileSearcher, StubSearcher, AnyFileBorrower, PyFileBorrower, FileWriter, PyFileWriter (long-lived, on the interposed filesystem)',
                    'JsonCodeGen.genIndex', 'the same objects created fresh per operation (reference)', 'child interpreters with other PYTHONHASHSEED values']
-STUB_COMPONENTS = ['sources/writer (callbacks over in-memory texts)', 'clock and host identity (pinned, so that generated comments are inputs)']
+STUB_COMPONENTS = ['sources/writer of the in-memory compile operations (callbacks over texts)', 'clock and host identity (pinned, so that generated comments are inputs)',
+                   'errno / short-write outcomes of os.* calls during faulted fs calls (injected)',
+                   'LALR table generation for *reference* parser objects (tables written once per process by PLY itself are loaded instead); reference results of parse / corpus-compile operations are computed once per process']
 RULE = ('seeded histories of 3-10 operations: parse(valid corpus file | 11 kinds of failing text incl. failures inside MACRO/EXPORTS/CHOICE/comment/string), '
         'compile(generated module set with healthy and defective members, SMIv1 INDEX types, refined enumerated types used by other modules, with/without REVISION; one or several requested modules in any order; json or pysnmp), '
         'genIndex(earlier results), repeat(earlier op); for joint calls every written module is also compiled alone by fresh objects (its text must not depend on what else the call compiled); '
+        'fs histories (30 % of the seeded worlds): 2-5 compile() calls on one compiler with real readers/searcher/borrowers/writer, some under seeded I/O faults, source files changing in between; every fault-free call vs fresh objects over a copy of the tree, rebuild calls also vs fresh objects over a pristine tree; '
         'each history runs in the parent (hash seed 0) and in 2 child interpreters with hash seeds from a palette of 5; '
         'distinct = distinct (sequence of op kinds and outcomes, child seeds); non-trivial = every history (>=3 operations on long-lived objects)')
 ASSUMPTIONS = ['behaviour after asynchronous exceptions (no input can cause them) is not demanded',
